@@ -817,13 +817,14 @@ def body_reach(fn, lp, starts, removed_blocks=frozenset(), removed_edges=frozens
     return seen, back
 
 
-def reductions(ctx, key, adaptors=None, skip=None, brk=None, min_loops=0, rule="RED", exclude_loops=(), labels=None):
+def reductions(ctx, key, adaptors=None, skip=None, brk=None, min_loops=0, rule="RED", exclude_loops=(), labels=None, fn=None, view=None,
+               only_loops=None):
     """Engine D on one function: (ii) the truncating/reordering adaptors are exactly the reviewed ones;
     (iii) no iteration can skip an accumulation and no exit other than exhaustion / an error return leaves a loop,
     except under the reviewed conditions (fact matchers).
     skip: {variable name: fact matcher for edges on which skipping is allowed}
     brk:  list of fact matchers for edges under which a non-error exit is allowed"""
-    f = ctx.anchor(key)
+    f = fn if fn is not None else ctx.anchor(key)
     if not f:
         return None
     adaptors = adaptors or {}
@@ -834,10 +835,10 @@ def reductions(ctx, key, adaptors=None, skip=None, brk=None, min_loops=0, rule="
               "the set of element-dropping/reordering adaptors in %s is %s, reviewed set is %s: a reduction over "
               "participants/coefficients/items may no longer cover every element (or its order changed)"
               % (key, inv, adaptors), f.loc, {"found": inv})
-    v = FnView.get(ctx.prog, f)
+    v = view if view is not None else FnView.get(ctx.prog, f)
     names = dict(f.var_names())
     names.update(labels or {})      # accumulators identified structurally by the caller: local -> role name
-    lr = [lp for lp in loop_report(ctx.prog, f) if lp["line"] not in exclude_loops]
+    lr = [lp for lp in loop_report(ctx.prog, f, v) if lp["line"] not in exclude_loops and (only_loops is None or only_loops(lp))]
     if len(lr) < min_loops:
         # written without explicit loops (iterator chains): the semantic rules of the property decide coverage on the unified
         # views; only the adaptor inventory applies here
